@@ -19,6 +19,7 @@ type IntsBuilder struct {
 	FinalAppsMap syslutil.StrSet
 	Deps         syslutil.StrSet
 	DepsOut      []AppDependency
+	walking      map[AppElement]struct{} // pass-through endpoints on the current walk
 }
 
 func sortedSlice(endpts map[string]*sysl.Endpoint) []string {
@@ -138,6 +139,17 @@ func (b *IntsBuilder) MyCallers(sourceApp, epname string, t *sysl.Statement) {
 
 func (b *IntsBuilder) WalkPassthrough(appname, epname string) {
 	if b.Passthroughs.Contains(appname) {
+		// Pass-through applications may call each other in a cycle: do not walk an
+		// endpoint again while it is being walked.
+		at := AppElement{Name: appname, Endpoint: epname}
+		if _, cycle := b.walking[at]; cycle {
+			return
+		}
+		if b.walking == nil {
+			b.walking = map[AppElement]struct{}{}
+		}
+		b.walking[at] = struct{}{}
+		defer delete(b.walking, at)
 		endpt := b.M.GetApps()[appname].GetEndpoints()[epname]
 		ProcessCalls(appname, epname, endpt.GetStmt(), b.ProcessExcludeAndPassthrough)
 	}
